@@ -50,6 +50,14 @@ impl<K: Eq + Hash + Clone> ArcState<K> {
       }
       return Some((key, cost));
     }
+    // The preferred list was empty: fall back to T1 so that every resident key stays evictable.
+    if let Some((key, cost)) = self.t1.pop_back() {
+      self.b1.push_front(key.clone(), cost);
+      if self.b1.current_total_cost() > capacity {
+        self.b1.pop_back();
+      }
+      return Some((key, cost));
+    }
     None
   }
 }
